@@ -109,4 +109,10 @@ CHECKS = {
   "text": "Whole reference proteins with threaded acid-acid, base-base, his-his, cys-cys, cys-his, acid-base, tyr-any clusters at buried positions, library ions (all 21 names) and ligands of every titratable type next to the cluster, corpus-derived structures with every library ligand, and parameter files with desolvationAllowance 0 / 0.1 / 0.4: desolvation and backbone signs, Coulomb signs for like and opposite charges and for ions, bounds (2 x side-chain maximum except the configured CYS-CYS value; Coulomb value at the inner cut-off with dielectric 30, times the formal charge for ions), buried fraction in [0,1], equal-and-opposite Coulomb determinants of acid-base pairs of reported protein side chains; ranges, cut-offs and monotonicity of coulomb_energy, hydrogen_bond_energy and the weight functions.",
   "note": "Bounds are read from the Parameters object of the run, the constants 244.12 and 30 from the statement. Default options only.",
  },
+ "C17": {
+  "level": "exploration",
+  "technique": "property-based testing (Hypothesis): geometric predicates on every constructed hydrogen, complement counts on residues classified regular by an independent template/bond-rule model, metamorphic orientation clause under exact grid motions",
+  "text": "Generated structures in drawn grid orientations (default, --protonate-all, and own hydrogens fed back with --keep-protons), every library ligand and synthetic centres of 10 elements with 0-3 neighbours (planar, pyramidal, linear): each constructed hydrogen has exactly one heavy parent that lists it back, sits at the tabulated X-H length within 0.0015 A, and keeps >= 0.5 A from its siblings; residues whose reference-rule bond graph equals the hand-written template and whose chain neighbours are present carry exactly His 2 / Arg 5 / Asn, Gln 2 / Trp 1 / backbone 1 hydrogens and raise no 'missing atoms or failed protonation' warning; hydrogen sets of two orientations correspond one-to-one within a grid step.",
+  "note": "'Regular' is the harness's predicate (vlib/templates.py); residues failing it are outside the completeness claim. Hetero atoms are outside the orientation clause (rotamers frame-dependent by design). Open findings F11 and F8 excluded from the orientation clause by signature.",
+ },
 }
